@@ -39,6 +39,9 @@ enum Call {
     RemoveRule(usize),
     /// `knowledge_base().add_rule(..)` of a rule removed earlier: it becomes the newest rule
     ReAddRule(usize),
+    /// `execute` in which the first action that runs takes longer than the engine's timeout (only
+    /// in cases with `timeout_ms`): the call ends on the timeout error path
+    ExecSlow,
 }
 
 #[derive(Clone, Debug)]
@@ -56,12 +59,15 @@ struct Case {
     store: Store,
     max_cycles: usize,
     calls: Vec<Call>,
+    /// EngineConfig.timeout in milliseconds (None = no timeout)
+    timeout_ms: Option<u64>,
 }
 
 fn call_json(c: &Call) -> Json {
     match c {
         Call::ExecAt(t) => json!({"execute_at_time_ms": t, "rel": format!("T0{:+}ms", t - T0)}),
         Call::ExecNow => json!("execute"),
+        Call::ExecSlow => json!("execute_with_a_slow_first_action"),
         Call::ExecCallback => json!("execute_with_callback"),
         Call::SetFocus(g) => json!({"set_agenda_focus": g}),
         Call::Pop => json!("pop_agenda_focus"),
@@ -78,6 +84,7 @@ fn call_from(j: &Json) -> Option<Call> {
     if let Some(s) = j.as_str() {
         return Some(match s {
             "execute" => Call::ExecNow,
+            "execute_with_a_slow_first_action" => Call::ExecSlow,
             "execute_with_callback" => Call::ExecCallback,
             "pop_agenda_focus" => Call::Pop,
             "clear_agenda_focus" => Call::Clear,
@@ -127,6 +134,7 @@ impl Case {
             "store": self.store.to_json(),
             "max_cycles": self.max_cycles,
             "calls": self.calls.iter().map(call_json).collect::<Vec<_>>(),
+            "timeout_ms": self.timeout_ms,
         })
     }
     fn from_json(j: &Json) -> Option<Case> {
@@ -145,6 +153,7 @@ impl Case {
             store: Store::from_json(j.get("store")?)?,
             max_cycles: j.get("max_cycles")?.as_u64()? as usize,
             calls: j.get("calls")?.as_array()?.iter().map(call_from).collect::<Option<Vec<_>>>()?,
+            timeout_ms: j.get("timeout_ms").and_then(|v| v.as_u64()),
         })
     }
 }
@@ -157,6 +166,8 @@ enum Tr {
 
 thread_local! {
     static TRACE: RefCell<Vec<Tr>> = const { RefCell::new(Vec::new()) };
+    /// the next Trace action sleeps this long (once)
+    static SLOW_MS: std::cell::Cell<u64> = const { std::cell::Cell::new(0) };
 }
 
 struct StepBound;
@@ -171,6 +182,8 @@ struct Obs {
     focus_changes_by_action: u64,
     hook_missing: bool,
     exec_err: u64,
+    slow_calls: u64,
+    timeout_errs: u64,
     tie_pairs_seen: u64,
     loa_firings: u64,
     noloop_firings: u64,
@@ -224,9 +237,13 @@ fn judge(case: &Case) -> (Verdict, Obs) {
     }
     let mut engine = RustRuleEngine::with_config(
         kb,
-        EngineConfig { max_cycles: case.max_cycles, timeout: None, enable_stats: false, debug_mode: false },
+        EngineConfig { max_cycles: case.max_cycles, timeout: case.timeout_ms.map(std::time::Duration::from_millis), enable_stats: false, debug_mode: false },
     );
     engine.register_action_handler("Trace", |params, facts: &Facts| {
+        let nap = SLOW_MS.with(|s| s.replace(0));
+        if nap > 0 {
+            std::thread::sleep(std::time::Duration::from_millis(nap));
+        }
         let name = match params.get("0") {
             Some(rust_rule_engine::Value::String(s)) => s.clone(),
             other => format!("{:?}", other),
@@ -360,6 +377,13 @@ fn judge(case: &Case) -> (Verdict, Obs) {
             }
             Call::ExecAt(t) => exec_t = Some(Some(*t)),
             Call::ExecNow | Call::ExecCallback => exec_t = Some(None),
+            Call::ExecSlow => {
+                if let Some(t) = case.timeout_ms {
+                    SLOW_MS.with(|s| s.set(t + 60));
+                    obs.slow_calls += 1;
+                }
+                exec_t = Some(None);
+            }
             Call::WorkflowStep(g) => {
                 // set focus to g, then execute at the current time
                 focus = [g.clone()].into_iter().collect();
@@ -398,7 +422,12 @@ fn judge(case: &Case) -> (Verdict, Obs) {
         let trace: Vec<Tr> = TRACE.with(|tr| std::mem::take(&mut *tr.borrow_mut()));
         match &res {
             Ok(Ok(())) => {}
-            Ok(Err(_)) => obs.exec_err += 1,
+            Ok(Err(e)) => {
+                obs.exec_err += 1;
+                if format!("{}", e).contains("timeout") {
+                    obs.timeout_errs += 1;
+                }
+            }
             Err(p) => {
                 if trace.iter().filter(|e| matches!(e, Tr::Pass)).count() > step_bound {
                     // C03 owns termination; nothing more to judge here
@@ -707,6 +736,8 @@ fn record(case: &Case, st: &mut Stats) {
     st.add("passes_observed", obs.passes);
     st.add("execute_calls", obs.exec_calls);
     st.add("execute_returned_err", obs.exec_err);
+    st.add("execute_calls_with_a_slow_first_action", obs.slow_calls);
+    st.add("execute_calls_that_ended_on_the_timeout_error", obs.timeout_errs);
     st.add("equal_salience_successive_firings", obs.tie_pairs_seen);
     st.add("focus_changes_by_ActivateAgendaGroup_action", obs.focus_changes_by_action);
     st.add("lock_on_active_firings", obs.loa_firings);
@@ -783,7 +814,9 @@ fn gen_rule(rng: &mut Rng, idx: usize, n_groups: usize) -> R {
 }
 
 fn gen_case(rng: &mut Rng) -> Case {
-    let n = 2 + rng.below(7);
+    // one case in 25 is wide: 21..=32 rules (many equal saliences in one list; sorting
+    // algorithms change behaviour with the length of the list)
+    let n = if rng.chance(1, 25) { 21 + rng.below(12) } else { 2 + rng.below(7) };
     let n_groups = rng.below(4);
     let rules: Vec<R> = (0..n).map(|i| gen_rule(rng, i, n_groups)).collect();
     let mut store = Store::new();
@@ -832,7 +865,36 @@ fn gen_case(rng: &mut Rng) -> Case {
     if !calls.iter().any(|c| matches!(c, Call::ExecAt(_) | Call::ExecNow | Call::ExecCallback | Call::WorkflowStep(_))) {
         calls.push(Call::ExecAt(T0 + DAY));
     }
-    Case { rules, store, max_cycles: 1 + rng.below(5), calls }
+    Case { rules, store, max_cycles: 1 + rng.below(5), calls, timeout_ms: None }
+}
+
+/// A history on an engine WITH a timeout in which one execute ends on the timeout error path
+/// (its first action outlasts the timeout; the check sits at the head of the next pass), between
+/// ordinary calls: whatever the engine remembers across calls (no-loop marks, focus, locks) must
+/// survive that path like any other.
+fn gen_timeout_case(rng: &mut Rng) -> Case {
+    let mut c = gen_case(rng);
+    c.timeout_ms = Some(40);
+    c.max_cycles = 3 + rng.below(3);
+    let plain = |rng: &mut Rng| if rng.bool() { Call::ExecNow } else { Call::ExecCallback };
+    let mut calls = vec![plain(rng)];
+    if rng.bool() {
+        calls.push(plain(rng));
+    }
+    calls.push(Call::ExecSlow);
+    calls.push(plain(rng));
+    if rng.bool() {
+        calls.push(plain(rng));
+    }
+    c.calls = calls;
+    // undated, enabled rules in MAIN so that the ordinary calls do fire them
+    for r in c.rules.iter_mut() {
+        r.effective = None;
+        r.expires = None;
+        r.enabled = true;
+        r.ast.attrs.agenda_group = None;
+    }
+    c
 }
 
 /// Exhaustive: 3 rules with fixed conditions/actions, every subset of the five attribute kinds
@@ -882,6 +944,7 @@ fn attribute_grid() -> Vec<Case> {
                 store,
                 max_cycles: 3,
                 calls: vec![Call::ExecAt(T0 + 10), Call::SetFocus("G1".into()), Call::ExecAt(T0 + 10), Call::ExecAt(T0 + 2 * DAY), Call::Clear, Call::ExecAt(T0 + 10), Call::ResetNoLoop, Call::ExecCallback, Call::ExecCallback],
+                timeout_ms: None,
             });
         }
     }
@@ -895,7 +958,7 @@ impl Check for C02 {
         "C02"
     }
     fn rule(&self) -> String {
-        "2-8 rules over boolean flags that the actions flip (self- and mutually triggering), salience from {-2,-1,0,0,1,1,i32::MAX,i32::MIN} (ties on purpose), no-loop / lock-on-active with probability 1/2, 0-3 agenda groups, 2 activation groups, date windows around three instants, some with boundaries inside a second (instants are milliseconds; evaluation exactly at, one millisecond and one second before and after each boundary, and at several offsets inside the boundary's own second), 1/8 disabled, ActivateAgendaGroup actions; histories of 1-6 calls (execute_at_time, execute, execute_with_callback, set/pop/clear focus, activate_agenda_group, reset_no_loop_tracking, set_rule_enabled, remove_rule / re-add of a removed rule, execute_workflow_step) on one engine, max_cycles 1-5; plus the exhaustive grid of all 32x32 attribute subsets on two rules with a fixed activator rule and call history. Non-trivial: at least 2 firings over at least 2 passes; distinct by the whole case.".into()
+        "2-8 rules (one case in 25: 21-32 rules) over boolean flags that the actions flip (self- and mutually triggering), salience from {-2,-1,0,0,1,1,i32::MAX,i32::MIN} (ties on purpose), no-loop / lock-on-active with probability 1/2, 0-3 agenda groups, 2 activation groups, date windows around three instants, some with boundaries inside a second (instants are milliseconds; evaluation exactly at, one millisecond and one second before and after each boundary, and at several offsets inside the boundary's own second), 1/8 disabled, ActivateAgendaGroup actions; histories of 1-6 calls (execute_at_time, execute, execute_with_callback, set/pop/clear focus, activate_agenda_group, reset_no_loop_tracking, set_rule_enabled, remove_rule / re-add of a removed rule, execute_workflow_step) on one engine, max_cycles 1-5; plus a few histories (3 per shard quick, 40 thorough) on an engine with a 40 ms timeout in which one execute ends on the timeout error path (its first action sleeps past the timeout) between ordinary calls; plus the exhaustive grid of all 32x32 attribute subsets on two rules with a fixed activator rule and call history. Non-trivial: at least 2 firings over at least 2 passes; distinct by the whole case.".into()
     }
     fn assumptions(&self) -> Vec<String> {
         vec![
@@ -930,6 +993,17 @@ impl Check for C02 {
                     break;
                 }
                 let c = gen_case(rng);
+                record(&c, st);
+            }
+        });
+        // histories with one execute that ends on the timeout error path (about 0.1 s each)
+        let slow = cli.n(3, 40);
+        shards(cli, nthreads, st, |_shard, rng, st| {
+            for _ in 0..slow {
+                if cli.expired() {
+                    break;
+                }
+                let c = gen_timeout_case(rng);
                 record(&c, st);
             }
         });
